@@ -57,4 +57,4 @@ Definition simple_ruleb (rl : rule) : bool :=
 
 (* the end-to-end theorem of C01 applies to this document and configuration *)
 Definition theorem_applies (nquads : bool) (d : document) : bool :=
-  nquads && forallb plain_tm d && match normalise d with Ok rules => forallb simple_ruleb rules | Err _ => false end.
+  forallb plain_tm d && match normalise d with Ok rules => forallb simple_ruleb rules | Err _ => false end.
